@@ -425,6 +425,46 @@ OnlyEpChkPreBuild(x, y) ==
      ELSE MkPos(Place(Place(pos.cells, victim, 0), origin, MkCell(opp, P)), opp, 0, -1, 0, 1)
 
 (***************************************************************************)
+(* F_ONLYCAP (filter): the mover is in check from an enemy queen standing  *)
+(* next to his king and guarded by an enemy slider behind it on the same   *)
+(* line; every legal move is the capture of that queen by a knight (after  *)
+(* which the guard's line is blocked again).  One more enemy queen takes   *)
+(* squares away.                                                           *)
+(***************************************************************************)
+OnlyCapCoarse == {<<k, a>> \in Sq \X (1..8) : RayLen(k, DirSeq[a]) >= 2}
+OnlyCapFine(x) ==
+  LET ray == RayTbl[x[1]][DirSeq[x[2]]] IN
+  {<<j, nsq, side, q>> \in (2..4) \X Sq \X {0, 1} \X Sq :
+      j <= Len(ray) /\ nsq \in KnightSet[ray[1]] /\ nsq # x[1] /\ q \notin {x[1], nsq} /\ q \notin {ray[m] : m \in 1..j}}
+OnlyCapBuild(x, y) ==
+  LET k == x[1]  ray == RayTbl[k][DirSeq[x[2]]]  side == y[3]  opp == Other(side)
+      back == IF x[2] <= 4 THEN R ELSE B
+      c == Place(Place(Place(Place(Place(EmptyCells, k, MkCell(side, K)), ray[1], MkCell(opp, Q)),
+                 ray[y[1]], MkCell(opp, back)), y[2], MkCell(side, N)), y[4], MkCell(opp, Q))
+      pos == Park(c, opp, side, 0, -1, 0, 1)
+  IN IF IsValid(pos) /\ Legal(pos) # {} /\ (\A m \in Legal(pos) : m[4] = ray[1] /\ PieceOf(m[2]) # K) THEN pos
+     ELSE MkPos(EmptyCells, side, 0, -1, 0, 1)
+
+(***************************************************************************)
+(* F_EDGESTALE (filter): NO legal move (stalemate or mate) while an e.p.   *)
+(* mark stands on the a- or h-file and the mover owns a blocked pawn on    *)
+(* any square - including the squares an unmasked shift of the mark wraps  *)
+(* round to.                                                               *)
+(***************************************************************************)
+EdgeStaleCoarse == {<<side, corner, vf>> \in {0, 1} \X {0, 7, 56, 63} \X {0, 7} : TRUE}
+EdgeStaleFine(x) == {<<q, p>> \in Sq \X {s \in Sq : RankOf(s) \in 1..6} : q # p}
+EdgeStaleBuild(x, y) ==
+  LET side == x[1]  opp == Other(side)  corner == x[2]
+      victim == MkSq(x[3], EpSrcRank(side))  passed == Shift(victim, 0, Fwd(side))  origin == Shift(victim, 0, 2 * Fwd(side))
+      own == y[2]  blk == Shift(own, 0, Fwd(side))
+      bad == MkPos(EmptyCells, side, 0, -1, 0, 1)
+  IN IF blk = -1 \/ RankOf(blk) \in {0, 7} \/ Cardinality({corner, victim, passed, origin, own, blk, y[1]}) < 7 THEN bad
+     ELSE LET c == Place(Place(Place(Place(Place(EmptyCells, corner, MkCell(side, K)), victim, MkCell(opp, P)),
+                              own, MkCell(side, P)), blk, MkCell(opp, P)), y[1], MkCell(opp, Q))
+              pos == Park(c, opp, side, 0, victim, 0, 1)
+          IN IF IsValid(pos) /\ Legal(pos) = {} THEN pos ELSE bad
+
+(***************************************************************************)
 (* F_PROMOEP: a promotion is available while an e.p. mark is pending.      *)
 (***************************************************************************)
 PromoEpCoarse == {<<side, f>> \in {0, 1} \X (0..7) : TRUE}
@@ -582,17 +622,17 @@ RawBuild(x, y) ==
                      IF back = -1 \/ c[back] \in {MkCell(0, K), MkCell(1, K)} THEN sk
                      ELSE [sk EXCEPT !.cells = Place(c, back, y[2])]
 
-FamilyNames == {"EP", "EPEDGE", "ONLYEP", "PIN", "CASTLE", "PROMO", "MAT", "CHK", "AMBIG", "RAW", "MINOR", "MULTICHK", "ROOKCAP", "EPCHK", "STALEMIN", "EPX", "EPCHKX", "PINMATE", "DBLCHK", "DBLPIN", "ONLYDBL", "PROMOEP", "CASTLEEP", "BATTERY", "EDGEPAWN", "ONLYPROMO", "EPEVADE", "ONLYEPCHK", "ONLYEPCHKPRE"}
+FamilyNames == {"EP", "EPEDGE", "ONLYEP", "PIN", "CASTLE", "PROMO", "MAT", "CHK", "AMBIG", "RAW", "MINOR", "MULTICHK", "ROOKCAP", "EPCHK", "STALEMIN", "EPX", "EPCHKX", "PINMATE", "DBLCHK", "DBLPIN", "ONLYDBL", "PROMOEP", "CASTLEEP", "BATTERY", "EDGEPAWN", "ONLYPROMO", "EPEVADE", "ONLYEPCHK", "ONLYEPCHKPRE", "ONLYCAP", "EDGESTALE"}
 Coarse(f) ==
   CASE f = "EP" -> EpCoarse [] f = "EPEDGE" -> EdgeCoarse [] f = "ONLYEP" -> OnlyEpCoarse
     [] f = "PIN" -> PinCoarse [] f = "CASTLE" -> CastleCoarse [] f = "PROMO" -> PromoCoarse
-    [] f = "MAT" -> MatCoarse [] f = "CHK" -> ChkCoarse [] f = "AMBIG" -> AmbigCoarse [] f = "RAW" -> RawCoarse [] f = "MINOR" -> MinorCoarse [] f = "MULTICHK" -> MultiCoarse [] f = "ROOKCAP" -> RookCapCoarse [] f = "EPCHK" -> EpChkCoarse [] f = "STALEMIN" -> StaleCoarse [] f = "EPX" -> EpCoarse [] f = "EPCHKX" -> EpChkCoarse [] f = "PINMATE" -> PinMateCoarse [] f = "DBLCHK" -> DblCoarse [] f = "DBLPIN" -> DblPinCoarse [] f = "ONLYDBL" -> OnlyDblCoarse [] f = "PROMOEP" -> PromoEpCoarse [] f = "CASTLEEP" -> CastleEpCoarse [] f = "BATTERY" -> BatteryCoarse [] f = "EDGEPAWN" -> EdgePawnCoarse [] f = "ONLYPROMO" -> OnlyPromoCoarse [] f = "EPEVADE" -> EpEvadeCoarse [] f \in {"ONLYEPCHK", "ONLYEPCHKPRE"} -> OnlyEpChkCoarse
+    [] f = "MAT" -> MatCoarse [] f = "CHK" -> ChkCoarse [] f = "AMBIG" -> AmbigCoarse [] f = "RAW" -> RawCoarse [] f = "MINOR" -> MinorCoarse [] f = "MULTICHK" -> MultiCoarse [] f = "ROOKCAP" -> RookCapCoarse [] f = "EPCHK" -> EpChkCoarse [] f = "STALEMIN" -> StaleCoarse [] f = "EPX" -> EpCoarse [] f = "EPCHKX" -> EpChkCoarse [] f = "PINMATE" -> PinMateCoarse [] f = "DBLCHK" -> DblCoarse [] f = "DBLPIN" -> DblPinCoarse [] f = "ONLYDBL" -> OnlyDblCoarse [] f = "PROMOEP" -> PromoEpCoarse [] f = "CASTLEEP" -> CastleEpCoarse [] f = "BATTERY" -> BatteryCoarse [] f = "EDGEPAWN" -> EdgePawnCoarse [] f = "ONLYPROMO" -> OnlyPromoCoarse [] f = "EPEVADE" -> EpEvadeCoarse [] f \in {"ONLYEPCHK", "ONLYEPCHKPRE"} -> OnlyEpChkCoarse [] f = "ONLYCAP" -> OnlyCapCoarse [] f = "EDGESTALE" -> EdgeStaleCoarse
 Fine(f, x) ==
   CASE f = "EP" -> EpFine(x) [] f = "EPEDGE" -> EdgeFine(x) [] f = "ONLYEP" -> OnlyEpFine(x)
     [] f = "PIN" -> PinFine(x) [] f = "CASTLE" -> CastleFine(x) [] f = "PROMO" -> PromoFine(x)
-    [] f = "MAT" -> MatFine(x) [] f = "CHK" -> ChkFine(x) [] f = "AMBIG" -> AmbigFine(x) [] f = "RAW" -> RawFine(x) [] f = "MINOR" -> MinorFine(x) [] f = "MULTICHK" -> MultiFine(x) [] f = "ROOKCAP" -> RookCapFine(x) [] f = "EPCHK" -> EpChkFine(x) [] f = "STALEMIN" -> StaleFine(x) [] f = "EPX" -> EpFine(x) [] f = "EPCHKX" -> EpChkFine(x) [] f = "PINMATE" -> PinMateFine(x) [] f = "DBLCHK" -> DblFine(x) [] f = "DBLPIN" -> DblPinFine(x) [] f = "ONLYDBL" -> OnlyDblFine(x) [] f = "PROMOEP" -> PromoEpFine(x) [] f = "CASTLEEP" -> CastleEpFine(x) [] f = "BATTERY" -> BatteryFine(x) [] f = "EDGEPAWN" -> EdgePawnFine(x) [] f = "ONLYPROMO" -> OnlyPromoFine(x) [] f = "EPEVADE" -> EpEvadeFine(x) [] f \in {"ONLYEPCHK", "ONLYEPCHKPRE"} -> OnlyEpChkFine(x)
+    [] f = "MAT" -> MatFine(x) [] f = "CHK" -> ChkFine(x) [] f = "AMBIG" -> AmbigFine(x) [] f = "RAW" -> RawFine(x) [] f = "MINOR" -> MinorFine(x) [] f = "MULTICHK" -> MultiFine(x) [] f = "ROOKCAP" -> RookCapFine(x) [] f = "EPCHK" -> EpChkFine(x) [] f = "STALEMIN" -> StaleFine(x) [] f = "EPX" -> EpFine(x) [] f = "EPCHKX" -> EpChkFine(x) [] f = "PINMATE" -> PinMateFine(x) [] f = "DBLCHK" -> DblFine(x) [] f = "DBLPIN" -> DblPinFine(x) [] f = "ONLYDBL" -> OnlyDblFine(x) [] f = "PROMOEP" -> PromoEpFine(x) [] f = "CASTLEEP" -> CastleEpFine(x) [] f = "BATTERY" -> BatteryFine(x) [] f = "EDGEPAWN" -> EdgePawnFine(x) [] f = "ONLYPROMO" -> OnlyPromoFine(x) [] f = "EPEVADE" -> EpEvadeFine(x) [] f \in {"ONLYEPCHK", "ONLYEPCHKPRE"} -> OnlyEpChkFine(x) [] f = "ONLYCAP" -> OnlyCapFine(x) [] f = "EDGESTALE" -> EdgeStaleFine(x)
 Build(f, x, y) ==
   CASE f = "EP" -> EpBuild(x, y) [] f = "EPEDGE" -> EdgeBuild(x, y) [] f = "ONLYEP" -> OnlyEpBuild(x, y)
     [] f = "PIN" -> PinBuild(x, y) [] f = "CASTLE" -> CastleBuild(x, y) [] f = "PROMO" -> PromoBuild(x, y)
-    [] f = "MAT" -> MatBuild(x, y) [] f = "CHK" -> ChkBuild(x, y) [] f = "AMBIG" -> AmbigBuild(x, y) [] f = "RAW" -> RawBuild(x, y) [] f = "MINOR" -> MinorBuild(x, y) [] f = "MULTICHK" -> MultiBuild(x, y) [] f = "ROOKCAP" -> RookCapBuild(x, y) [] f = "EPCHK" -> EpChkBuild(x, y) [] f = "STALEMIN" -> StaleBuild(x, y) [] f = "EPX" -> EpxBuild(x, y) [] f = "EPCHKX" -> EpChkxBuild(x, y) [] f = "PINMATE" -> PinMateBuild(x, y) [] f = "DBLCHK" -> DblBuild(x, y) [] f = "DBLPIN" -> DblPinBuild(x, y) [] f = "ONLYDBL" -> OnlyDblBuild(x, y) [] f = "PROMOEP" -> PromoEpBuild(x, y) [] f = "CASTLEEP" -> CastleEpBuild(x, y) [] f = "BATTERY" -> BatteryBuild(x, y) [] f = "EDGEPAWN" -> EdgePawnBuild(x, y) [] f = "ONLYPROMO" -> OnlyPromoBuild(x, y) [] f = "EPEVADE" -> EpEvadeBuild(x, y) [] f = "ONLYEPCHK" -> OnlyEpChkBuild(x, y) [] f = "ONLYEPCHKPRE" -> OnlyEpChkPreBuild(x, y)
+    [] f = "MAT" -> MatBuild(x, y) [] f = "CHK" -> ChkBuild(x, y) [] f = "AMBIG" -> AmbigBuild(x, y) [] f = "RAW" -> RawBuild(x, y) [] f = "MINOR" -> MinorBuild(x, y) [] f = "MULTICHK" -> MultiBuild(x, y) [] f = "ROOKCAP" -> RookCapBuild(x, y) [] f = "EPCHK" -> EpChkBuild(x, y) [] f = "STALEMIN" -> StaleBuild(x, y) [] f = "EPX" -> EpxBuild(x, y) [] f = "EPCHKX" -> EpChkxBuild(x, y) [] f = "PINMATE" -> PinMateBuild(x, y) [] f = "DBLCHK" -> DblBuild(x, y) [] f = "DBLPIN" -> DblPinBuild(x, y) [] f = "ONLYDBL" -> OnlyDblBuild(x, y) [] f = "PROMOEP" -> PromoEpBuild(x, y) [] f = "CASTLEEP" -> CastleEpBuild(x, y) [] f = "BATTERY" -> BatteryBuild(x, y) [] f = "EDGEPAWN" -> EdgePawnBuild(x, y) [] f = "ONLYPROMO" -> OnlyPromoBuild(x, y) [] f = "EPEVADE" -> EpEvadeBuild(x, y) [] f = "ONLYEPCHK" -> OnlyEpChkBuild(x, y) [] f = "ONLYEPCHKPRE" -> OnlyEpChkPreBuild(x, y) [] f = "ONLYCAP" -> OnlyCapBuild(x, y) [] f = "EDGESTALE" -> EdgeStaleBuild(x, y)
 =============================================================================
